@@ -132,4 +132,6 @@ ConfState(inst, s, st) == /\ st.cur = s.cur /\ st.used = s.used /\ st.time = s.t
                           /\ ToSetU(st.visited) = s.visited
 
 PadAction(inst) == 0
+\* forced first move of multi-start rollout / beam j (select_start_nodes: customer (j mod N) + 1)
+StartNode(inst, j) == (j % inst.N) + 1
 =============================================================================
